@@ -28,7 +28,9 @@ def plan(tier, seed):
     else:
         dates = ds
         k_pairs = 24
-    return [dict(date=str(d), k=k, seed=seed) for d in dates for k in range(k_pairs)]
+    items = [dict(date=str(d), k=k, seed=seed) for d in dates for k in range(k_pairs)]
+    items += [dict(date=str(dates[i % len(dates)]), k=5000 + i, seed=seed, large=True) for i in range(1 if tier == "quick" else 4)]
+    return items
 
 
 def run_item(item):
@@ -40,7 +42,13 @@ def run_item(item):
     params, functions = env.environment(d)
     A = popgen.population(rng, d, n_hh=int(rng.integers(2, 7)), params=params)
     corner = [None, "huge", "zero", "negative"][item["k"] % 4]
-    B = popgen.population(rng, d, n_hh=int(rng.integers(1, 8)), params=params, corner=corner)
+    if item.get("large"):
+        # B is large: > 4096 rows in the joint run and hundreds of young people covering their own needs
+        B = popgen.population(rng, d, n_hh=1300, params=params, archetypes=["selfsufficient_kids", "family_m", "single", "big_family", "student_wg"])
+        young = (B["alter"] < 25) & (B["alter"] >= 15) & (B["p_id_elternteil_1"] >= 0)
+        B["eigenbedarf_gedeckt"] = B["eigenbedarf_gedeckt"] | (young & (rng.random(len(B)) < 0.5))
+    else:
+        B = popgen.population(rng, d, n_hh=int(rng.integers(1, 8)), params=params, corner=corner)
     tA, nodes, roots, dag, fn = env.trace(A, params, functions)
     kinds = env.classify(fn)
     res = dict(date=item["date"], k=item["k"], popA=popgen.digest(A), popB=popgen.digest(B),
@@ -56,7 +64,7 @@ def run_item(item):
                 key=f"{v['node']}:{label.split(':')[0]}", label=label,
                 what=f"node {v['node']} of population A differs when {label}: {v}", detail=v, **extra))
 
-    for mode in ("after", "before", "interleave"):
+    for mode in (("before", "interleave") if item.get("large") else ("after", "before", "interleave")):
         J = popgen.concat_disjoint(A, B, rng, mode)
         try:
             tJ, nodesJ, _, _, _ = env.trace(J, params, functions)
@@ -119,6 +127,7 @@ def summarize(results, tier, seed):
              "or (population A, relabelling); all are non-trivial (B non-empty, map not identity); distinct by digests",
         dates=sorted({r["date"] for r in ok}),
         pairs=len({(r["popA"], r["popB"]) for r in ok}),
+        largest_joint_population=max((r["personsA"] + r["personsB"] for r in ok), default=0),
         node_comparisons=sum(r["nodes_compared"] for r in ok),
         id_collision_checks=sum(r["collisions_checked"] for r in ok),
         samples=[r["sample"] for r in ok[:2]],
